@@ -35,6 +35,20 @@ Theorem C43_exact_mode_exact : forall row scan_rows keyval proj other p v knn,
   exec row scan_rows keyval proj other (Exact) knn v = eval row scan_rows keyval proj other p.
 Proof. exact exact_mode_exact. Qed.
 
+(* exact mode NEVER consults the provider (scan_knn is not called), whatever the provider could answer *)
+Theorem C43_exact_never_consults : forall row scan_rows keyval proj other p v provider,
+  matches p = Some v ->
+  fst (try_index row Exact provider v) = false /\
+  exec_p row scan_rows keyval proj other Exact provider v = eval row scan_rows keyval proj other p.
+Proof. exact exact_never_consults. Qed.
+Theorem C43_consulted_only_indexed : forall row md provider v, fst (try_index row md provider v) = true -> md = Indexed.
+Proof. exact consulted_only_indexed. Qed.
+Theorem C43_declining_provider_exact : forall row scan_rows keyval proj other p v md provider,
+  matches p = Some v ->
+  (forall scan_knn, provider = Some scan_knn -> scan_knn v = None) ->
+  exec_p row scan_rows keyval proj other md provider v = eval row scan_rows keyval proj other p.
+Proof. exact declining_provider_exact. Qed.
+
 (* a provider without an index (scan_knn = None) gets the exact path in every mode *)
 Theorem C43_no_index_exact : forall row scan_rows keyval proj other p v md,
   matches p = Some v ->
@@ -101,6 +115,9 @@ Print Assumptions C43_match_roundtrip_syntactic.
 Print Assumptions C43_match_roundtrip.
 Print Assumptions C43_exact_is_sort_limit.
 Print Assumptions C43_exact_mode_exact.
+Print Assumptions C43_exact_never_consults.
+Print Assumptions C43_consulted_only_indexed.
+Print Assumptions C43_declining_provider_exact.
 Print Assumptions C43_no_index_exact.
 Print Assumptions C43_topk_keys_unique.
 Print Assumptions C43_topk_subbag.
